@@ -20,7 +20,7 @@ RULE = ("period {1,2.5,10,3600(jump)} x duration profile {constant, growing, shr
 ASSUMPTIONS = ["Redis and RabbitMQ are wire-level fakes", "virtual time", "cron schedules not reachable (croniter absent)",
                "scheduled time of an iteration = the next_execution_time its message carried (for the first: deferred_until or timestamp+period)"]
 EVAL_COUNTER = "iterations_judged"
-REQUIRED = ["iterations_judged", "profile_shrinking", "profile_longer", "outcome_retry", "outcome_exhausted", "outcome_eager_exhausted", "outcome_store_fault", "first_run_deferred_until", "twin_chains_judged", "timezone_offset_runs", "zero_backoff_runs"]
+REQUIRED = ["iterations_judged", "profile_shrinking", "profile_longer", "outcome_retry", "outcome_exhausted", "outcome_eager_exhausted", "outcome_store_fault", "first_run_deferred_until", "twin_chains_judged", "timezone_offset_runs", "zero_backoff_runs", "re_enqueued_while_an_iteration_runs"]
 CASE_TIMEOUT = 150
 
 PROFILES = ["constant", "growing", "shrinking", "sawtooth", "longer"]
@@ -46,6 +46,12 @@ def gen_cases(tier, seed):
         for oc in (("retry", "mixed", "exhausted") if tier == "quick" else ("retry", "mixed", "exhausted", "eager_exhausted")):
             for prof in (("constant",) if tier == "quick" else ("constant", "longer")):
                 cases.append({"kind": kind, "p": 2.5, "profile": prof, "outcomes": oc, "du": "none", "iters": 10, "seed": rnd.randrange(10**6), "latency": None if kind == "mem" else 0.002, "zero_backoff": True})
+    # Redis: the producer enqueues the recurring job again, under its fixed id, while an iteration is being executed (one
+    # message per id there): the successor written at the end of that iteration is the one that counts
+    # (scores are whole seconds there: several distances, so that some land in another second than the successor's time)
+    for ahead in ((0.3, 0.5) if tier == "quick" else (0.3, 0.4, 0.5, 0.7, 1.0)):
+        for when in (1, 2, 3):
+            cases.append({"reenqueue": True, "kind": "redis", "p": 2.5, "ahead": ahead, "when": when, "iters": 7, "seed": rnd.randrange(10**6), "latency": 0.002})
     # the same cadence rules on machines whose local time is not UTC (schedules are naive local datetimes)
     for i, tz in enumerate(("JST-9", "CET-1", "EST5", "IST-5:30")):
         for kind in ("mem", "redis", "rabbit"):
@@ -263,6 +269,67 @@ async def scenario(loop, case, out, stats, fps, samples):
         await w.close()
 
 
+async def reenqueue_scenario(loop, case, out, stats, fps, samples):
+    from rv.sim.loop import EPOCH_S
+    from rv.wl import World, run_worker
+
+    kind, p, n = case["kind"], case["p"], case["iters"]
+    EPOCH = datetime.fromtimestamp(EPOCH_S)
+    w = World(loop, kind, converter="basic", seed=case["seed"], latency=case["latency"])
+    try:
+        await w.open()
+        r = w.router()
+        w.scripted_actor(r, "act")
+        await w.conn.message_broker.queue_declare("default")
+        loop.jump(1.37)
+        kw = dict(deferred_by=timedelta(seconds=p), retries=0, timeout=timedelta(seconds=5), store_result=False)
+        await w.job("act", "tick", {"do": "ok", "d": 0.2}, **kw).enqueue()
+
+        def starts():
+            return [e for e in w.log.events if e.get("id") == "tick" and e["k"] == "actor_start"]
+
+        async def producer():
+            while len(starts()) < case["when"] + 1:
+                await asyncio.sleep(0.01)
+            await asyncio.sleep(0.08)  # the iteration is being executed (0.2 s)
+            stats["re_enqueued_while_an_iteration_runs"] += 1
+            await w.job("act", "tick", {"do": "ok", "d": 0.2}, deferred_until=datetime.now() + timedelta(seconds=case["ahead"]), **kw).enqueue()
+            return loop.time()
+
+        prod = loop.create_task(producer())
+        info = await run_worker(w, w.worker([r], tasks_limit=3, graceful_shutdown_time=3.0, handle_signals=[__import__("signal").SIGUSR1]), until=lambda: len(starts()) >= n, horizon=(n + 3) * p, poll=0.1)
+        if info["exc"] is not None or not info["returned"]:
+            out.append(V("worker_died", kind, "reenqueue", f"{info}"))
+        if not prod.done():
+            prod.cancel()
+            out.append(V("harness_or_api_error", kind, "reenqueue", "the producer never saw the iteration it waited for"))
+            return
+        ev = [e for e in w.log.events if e.get("id") == "tick"]
+        ctx = "reenqueue-while-running"
+        fps.add(f"{kind}/reenqueue/{case['ahead']}/{case['when']}")
+        rq = [e for e in ev if e["k"] == "call" and e.get("op") == "requeue" and e.get("depth") == 0]
+        for q_ in rq:
+            stats["iterations_judged"] += 1
+            nxt = (q_.get("params") or {}).get("next")
+            if not nxt:
+                continue
+            due = (datetime.fromisoformat(nxt) - EPOCH).total_seconds()
+            after = [e for e in ev if e["k"] == "actor_start" and e["n"] > q_["n"]]
+            if after and after[0]["t"] < due - 0.001:
+                out.append(V("early_successor", kind, ctx, f"the iteration that ended at +{q_['t']:.3f}s scheduled its successor for +{due:.3f}s; the next execution started at +{after[0]['t']:.3f}s, {due - after[0]['t']:.3f}s early "
+                                                           f"(the job had been enqueued again under the same id, {case['ahead']}s ahead, while iteration {case['when'] + 1} was running)"))
+                break
+        ts = [e["t"] for e in starts()]
+        close = [(a, b) for a, b in zip(ts, ts[1:]) if b - a < p / 2]
+        if close and not any(v["rule"] == "early_successor" for v in out):
+            out.append(V("two_successors", kind, ctx, f"executions {close[0][0]:.3f}s and {close[0][1]:.3f}s are less than half a period apart (period {p}s): {[round(t, 3) for t in ts]}"))
+        if len(ts) < n:
+            out.append(V("no_successor", kind, ctx, f"only {len(ts)} executions in {(n + 3) * p:.0f}s: {[round(t, 3) for t in ts]}; state {w.rig.snapshot().get('tick')}"))
+        stats["unknown_server_commands"] += w.rig.unknown_commands()
+    finally:
+        await w.close()
+
+
 async def twins_scenario(loop, case, out, stats, fps, samples):
     from repid import PrioritiesT
 
@@ -356,7 +423,7 @@ def run_case(case):
 
     stats = collections.Counter()
     out, fps, samples = [], set(), []
-    sc = twins_scenario if case.get("twins") else scenario
+    sc = twins_scenario if case.get("twins") else reenqueue_scenario if case.get("reenqueue") else scenario
     import os
     import time as _time
 
